@@ -23,8 +23,11 @@ def op_argv(op, target=None):
     raise ValueError(op)
 
 
-def group(rd, roots, extra=(), **kw):
-    """roots: list of bytes/str paths (absolute or relative to cwd)."""
+def group(rd, roots, extra=(), roots_last=False, **kw):
+    """roots: list of bytes/str paths (absolute or relative to cwd).  roots_last: the input paths end the
+    command line (the last one is then the last word of the report header's command)."""
+    if roots_last:
+        return core.run_fclones(rd, ["group"] + list(extra) + list(roots), **kw)
     return core.run_fclones(rd, ["group"] + list(roots) + list(extra), **kw)
 
 
